@@ -69,9 +69,9 @@ Gc(S) == LET gone == {i \in Ids(S) : S.ino[i].nlink = 0 /\ ~Referenced(S, i)} IN
 \* a name under something that is not a directory: ENOTDIR, except that the empty name is refused first (ENOENT)
 \* and the order of the length check is not pinned
 NotDirErr(k) == IF k \in {"empty", "long"} THEN AnyErr ELSE {"ENOTDIR"}
-NameErr(S, k) == IF k = "empty" THEN Fail(S, {"ENOENT"})
-                 ELSE IF k = "long" THEN Fail(S, {"ENAMETOOLONG"})
-                 ELSE Fail(S, AnyErr)
+\* the empty name and over-long names always fail; which check answers first (ENOENT / ENAMETOOLONG / EACCES /
+\* ENOTDIR) depends on the call and the caller, and is not among the robust cases
+NameErr(S, k) == Fail(S, AnyErr)
 
 (* ---------------- lookup: fstatat/openat(O_PATH|O_NOFOLLOW) of one component ---------------- *)
 Lookup(S, d, name, k) ==
@@ -97,8 +97,6 @@ CreateErr(S, c, d, name, k) ==
   ELSE IF ~IsDir(S, d) THEN (IF k \in {"empty", "long"} THEN {"EGEN"} ELSE {"ENOTDIR"})
   ELSE IF Dead(S, d) /\ k # "plain" THEN {"EGEN"}      \* removed directory: which check comes first is not pinned
   ELSE IF k \in {"dot", "dotdot"} THEN {"EEXIST", "EINVAL", "ENOTEMPTY", "EBUSY", "EISDIR", "EPERM"}   \* gated by the A level anyway
-  ELSE IF k = "empty" THEN {"ENOENT"}
-  ELSE IF k = "long" THEN {"ENAMETOOLONG"}
   ELSE IF k # "plain" THEN {"EGEN"}
   ELSE IF ~May(c, S.ino[d], 1) THEN {"EACCES"}
   ELSE IF name \in Names(S, d) THEN {"EEXIST"}
